@@ -4,7 +4,7 @@ CONSTANTS
   Files = {f1}
   Postfixes = {}
   Configs <- C01Configs
-  Seeds = {1, 2}
+  Seeds = {0, 1, 2}
   Textures = {"random", "clustered", "girdle", "single", "nonuniform"}
   Flows = {"zero", "ss_xz", "ss_zx", "ss_yx", "ss_xy", "ss_yz", "ss_zy", "pure_xy", "pure_xz", "axi_c", "axi_e", "gen3d", "trace", "tdep", "xdep", "rot"}
   Pars <- C01Pars
